@@ -29,14 +29,17 @@ RULE = ("a case counts as non-trivial if one of its arguments lies on a support 
 LEVEL_TEXT = (
     "Theorems (Coq, all real arguments, over the same Gallina terms that are extracted and run): uniform, exponential, normal and Maxwell-Boltzmann: density >= 0, "
     "CDF' = density inside every support piece, CDF non-decreasing, CDF(b) - CDF(a) = RInt density a b for all a, b (Chasles across the support boundaries), "
-    "range [0,1] and limits for uniform/exponential; binomial: CDF is the partial sum, the masses sum to one, mass >= 0, 0 beyond the trials (given that the "
+    "range [0,1] and limits for all four: uniform/exponential by the closed forms, normal and Maxwell-Boltzmann from -1 < erf x < 1 at every real x, "
+    "1 - e^(-x^2) <= erf x for x >= 0 and erf -> +-1 at +-infinity, which are theorems about the erf defined by its integral (proved from "
+    "(RInt e^(-t^2) 0 x)^2 = PI/4 - RInt (e^(-x^2 (1+t^2)) / (1+t^2)) 0 1, differentiation under the integral sign on [0,1], no axiom): normal CDF strictly "
+    "inside (0,1), -> 1 / -> 0, median 1/2, point symmetry; Maxwell-Boltzmann CDF in [0,1), 0 below the support, -> 1; binomial: CDF is the partial sum, the masses sum to one, mass >= 0, 0 beyond the trials (given that the "
     "Binomial_Coefficient parameter returns C(n,k)); Poisson: the log-sum equals e^-mu mu^k / k!, the mean-0 conventions, the partial sum of the masses equals "
     "1 - (1/n!) RInt t^n e^-t 0 mu (the regularised upper incomplete gamma function at integer a), hence CDF_Poisson is the partial sum whenever GammaQ returns "
     "that function; likelihood = mass at s+b, log = logarithm, binned = sum/product, size mismatch exits, empty background = zeros; chi-square: the log-space "
     "density equals x^(k/2-1) e^(-x/2) / (2^(k/2) Gamma(k/2)) given GammaLn = ln Gamma, CDF = GammaP(x/2,k/2), CDF' = density given the defining derivative of P, "
     "dof-0 conventions, chi-bar mixture linearity and clamp; Quantile_Gauss: exact inverse given the exact inverse error function and error <= sqrt2 sigma delta "
     "for an Inv_Erf accurate to delta; Inv_CDF_Poisson(0,c) is the exact inverse; KDE: the tabulation never indexes out of bounds. "
-    "NOT theorems: |erf| <= 1 (so range/limits of the normal and Maxwell-Boltzmann CDFs), numeric agreement of GammaQ/GammaP/GammaLn/Inv_GammaQ/Inv_Erf/"
+    "NOT theorems: numeric agreement of GammaQ/GammaP/GammaLn/Inv_GammaQ/Inv_Erf/"
     "Binomial_Coefficient with the functions they approximate (C06/C02), and the KDE's normalisation (it divides by an approximate Simpson integral) — these are "
     "S4 predicates on the implementation for every generated case. Correspondence: all closed forms, sums, likelihoods are run model-vs-C++ (bit-identical); "
     "functions that delegate (CDF_Poisson, Inv_CDF_Poisson, PDF/CDF_Chi_Square, chi-bar, Quantile_Gauss, PMF/CDF_Binomial) are run with the delegate's C++ "
